@@ -399,6 +399,25 @@ Theorem C13_after_reset_admission_nonvacuous :
 Proof. exact (conj rd_victim_ops_ok rd_admitted_example). Qed.
 Print Assumptions C13_after_reset_admission_nonvacuous.
 
+(** * The after-reset theorems under the premises the runner evaluates on every fast-forward *)
+
+(* [frame_shapeb] (kind RS) and [after_reset_premisesb] (kind RP: anchor's round-received >= 0, no
+   recorded round above it, non-negative indexes of the shipped bodies) are computed by the runner on
+   the block / frame / bodies every reset node actually received, dynamic membership included.  Under
+   them: C02 for the new deliveries, and C07 for the later admissions for every universe [all] that
+   contains the shipped bodies *)
+Theorem C13_after_reset_checked : forall v b f cores v' ops,
+  frame_shapeb f = true -> after_reset_premisesb b f cores = true ->
+  node_fast_forward v b f cores = (true, v') ->
+  (exists news, delivered (hrun v' ops) = delivered v ++ news /\
+     (forall k d, nth_error news k = Some d -> b_index d = Z.max (b_index b) (-1) + 1 + Z.of_nat k) /\
+     StronglySorted Z.lt (map b_rr news) /\ (forall d, In d news -> b_rr b < b_rr d)) /\
+  (forall all, (forall fe e, In fe (all_frame_events f) -> core_of cores (fe_id fe) = Some e -> In e all) ->
+     ids_determine all -> Forall (hop_ok all) ops ->
+     dag_okR (frame_ids f) (hrun v' ops) /\ from_attempts (hrun v' ops) all /\ grows v' (hrun v' ops)).
+Proof. exact after_reset_checked. Qed.
+Print Assumptions C13_after_reset_checked.
+
 (** * Continuity of rounds, witness flags, Lamport timestamps under [roots_sufficient] *)
 
 (* y: an event stored in both nodes with the same body, not yet divided, whose parents have the same
